@@ -16,7 +16,7 @@ pub fn property() -> Property {
     Property {
         id: "C15",
         level: "exploration",
-        rule: "Forms with 0..6 text fields and 0..5 files (incl. the empty form) are built, prepared and sent; data over all byte values with CR, LF, dashes, look-alike delimiter lines (CRLF + '--' + 16 alphanumerics, the boundary of the previous request of the same shard, well-known fixed boundaries); part sizes 0..200 KiB chosen so that header/data/delimiter edges fall on every offset modulo 8 192 (the copy buffer) over the run (bitset of 8 192 residues recorded; all must occur in thorough); names/filenames over printable characters without quote/CR/LF incl. UTF-8; MIME strings from a list of valid types with parameters; transfer chunking varied by short-write schedules. Oracle: build/prepare/send succeed; the de-chunked body decoded by the harness's multipart decoder with the boundary from the Content-Type on the wire yields exactly the multiset of (name, filename, content type as parsed Mime, data) that was added; a proper closing delimiter with nothing after it. Non-trivial: every form; distinct = hash(parts).",
+        rule: "Forms with 0..6 text fields and 0..5 files (incl. the empty form) are built, prepared and sent; data over all byte values with CR, LF, dashes, look-alike delimiter lines (CRLF + '--' + 16 alphanumerics, the boundary of the previous request of the same shard, well-known fixed boundaries); part sizes 0..200 KiB chosen so that header/data/delimiter edges fall on every offset modulo 8 192 (the copy buffer) over the run (bitset of 8 192 residues recorded; all must occur in thorough); names/filenames over printable characters without quote/CR/LF incl. UTF-8; MIME strings from a list of valid types with parameters; transfer chunking varied by short-write schedules; the request comes from attohttpc::post, from a Session with a default Content-Type, or already carries a bare / two appended Content-Type fields when the form is attached. Oracle: build/prepare/send succeed; the de-chunked body decoded by the harness's multipart decoder with the boundary from the Content-Type on the wire yields exactly the multiset of (name, filename, content type as parsed Mime, data) that was added; a proper closing delimiter with nothing after it. Non-trivial: every form; distinct = hash(parts).",
         assumptions: &["part order is not judged (the statement says 'exactly the added parts')", "the boundary is random per request: 'does not occur in the data' is provoked with the previous boundary and fixed well-known boundaries"],
         min_nontrivial: |t| t.pick(3_000, 60_000),
         gens,
@@ -118,7 +118,24 @@ fn check_form(ctx: &mut Ctx, texts: &[TextField], files: &[FileField], faults: W
     };
     let f2 = faults.clone();
     let world = World::install(move |_, _, _| Answer::Script(vec![Step::Data(OK_RESPONSE.to_vec())], f2.clone()));
-    let prepared = match attohttpc::post("http://origin.test/upload").body(form).try_prepare() {
+    // where the request comes from: a Content-Type that is already present (session default, or
+    // set/appended by the caller before the form is attached) must not keep the boundary from
+    // being announced
+    let variant = (texts.iter().map(|t| t.value.len()).sum::<usize>() + files.iter().map(|f| f.data.len()).sum::<usize>() + texts.len() + files.len()) % 5;
+    let url = "http://origin.test/upload";
+    let rb = match variant {
+        0 | 1 => attohttpc::post(url).body(form),
+        2 => {
+            let mut s = attohttpc::Session::new();
+            s.header("Content-Type", "application/json");
+            s.post(url).body(form)
+        }
+        3 => attohttpc::post(url).header("Content-Type", "multipart/form-data").body(form),
+        _ => attohttpc::put(url).header_append("content-type", "text/plain").header_append("content-type", "text/html").body(form),
+    };
+    ctx.count(["request_plain", "request_plain", "request_from_session_with_default_content_type", "request_with_bare_multipart_content_type", "request_with_two_appended_content_types"][variant], 1);
+    let descr = || format!("{} request variant {variant}", descr());
+    let prepared = match rb.try_prepare() {
         Ok(p) => p,
         Err(e) => {
             ctx.violation("prepare-failed", format!("try_prepare() failed: {e:?}; {}", descr()));
